@@ -335,7 +335,7 @@ def load_known(prop_id):
                     fixed.append(ln)
                     continue
                 e = json.loads(ln)
-                if e.get('property') == prop_id:
+                if e.get('property') == prop_id and e.get('id') not in {x.get('id') for x in active}:
                     active.append(e)
     return active, fixed
 
